@@ -57,6 +57,29 @@ claim('C19', 'other',
       'tests of rational_limit are not decided.',
       TRUST, 'DESIGN.md section 3 C19')
 
+claim('C09', 'other',
+      'abstract interpretation over a polynomial normal form (identities), constructor-argument tables for Arc, exhaustive case '
+      'table of Path.cropped over (segment of T0, segment of T1, order), AST provenance rule for lookups by value',
+      'Decides for all control points/parameters: reversed().point(t)==point(1-t), split(s) pieces, cropped(0,s)/(s,1) for '
+      'Line/Quadratic/Cubic and Line.cropped(t0,t1); the structure of crop_bezier around its numeric relocation step; the Arc '
+      'tables of reversed/cropped/split including the large-arc rule |delta*(t1-t0)| <= 180 in degrees; Path.reversed; the '
+      'complete piece table of Path.cropped on a closed 3-segment path (9 index pairs x both orders, interior parameters); and that '
+      'Path never looks up by value a segment whose index it knows. Not decided: the numeric relocation of t1 in crop_bezier '
+      '(radialrange), boundary parameters of Path.cropped (np.isclose branches), lengths.',
+      TRUST + ' Arc geometry is summarised by symbols theta/delta/center (their meaning is C04).', 'DESIGN.md section 3 C09')
+
+claim('C10', 'other',
+      'abstract interpretation over a polynomial/trigonometric normal form (affine-map identities), constructor-argument tables for Arc, '
+      'symbolic execution-free welding table, backward-slice information-flow rules',
+      'Decides for all control points, parameters and t that translate/rotate (explicit, zero and default origin)/scale (uniform, '
+      'non-uniform, with origin)/transform(3x3 matrix) of Line/Quadratic/Cubic equal the affine map applied to point(t), that the '
+      'translated/rotated/scaled methods forward their arguments, the Arc tables for translate/rotate/uniform scale, that non-uniform '
+      'scale of an Arc raises, that Path.joints pairs cyclically and transform_segments_together welds every coinciding joint '
+      'including the closing one (and no other), and that every Path branch delegates per segment with the same parameters. '
+      'Three information-flow necessary conditions on the arc branch of transform() fail on the pinned tree and are listed as known '
+      'findings (F08a-c). Numerics of that branch are not decided.',
+      TRUST, 'DESIGN.md section 3 C10')
+
 ALL = ['C%02d' % i for i in range(1, 21)]
 for pid in ALL:
     if pid not in CLAIMED and pid not in NOT_APPLICABLE:
